@@ -21,7 +21,7 @@ TECHNIQUE = ("exhaustive walk of a configuration lattice around a payload alphab
 LEVEL_TEXT = ("every configuration of the stated lattice is executed on the real plscf.pLSCF / pLSCF_poles (and, on a "
               "sub-lattice, on rmfd2ac/ac2mp_poly fed with the true coefficients and on the pLSCF algorithm class "
               "through SingleSetup) and judged against the known coefficient matrices and their exact roots")
-RULE = ("a case is one lattice point (route, n, Nch, Nref, sign, line-count kind, dt, ordmax-n, coefficient family), or, "
+RULE = ("a case is one lattice point (route, n, Nch, Nref, sign, line-count kind, dt, ordmax-n, coefficient family - payload families 0..2 or a near-identity family), or, "
         "in the 'diag' route, one tuple of exactly representable eigenvalues with Nref and dt; "
         "non-trivial = it passed the truth-based guards and the true denominator (state matrix) has at least one root "
         "that must be reported and at least one that must be blanked (so both the recovery and the blanking are "
@@ -46,6 +46,17 @@ ASSUMPTIONS = [
     "exponential-window term 1/(tau*dt) to the poles it reports: there the blanking and counting clauses are judged - the reported poles minus "
     "that term must be exactly the roots with non-positive real part (the term's time-unit behaviour is C08's)",
     "mode-shape values are judged only for the unit normalisation and the NaN pattern (the statement says no more)",
+    "coefficient families 0..2 draw every free coefficient from the payload (an end coefficient is then never close to I); the families "
+    "'nearI:<delta>:<kind>' put the FREE end coefficient (alpha_n for the negative, alpha_0 for the positive sign) at I + D with "
+    "|D_jj| = delta in {1e-9, 1e-7, 0.9e-5, 1.1e-5} (alternating signs) and |D_jk| = delta/1000, i.e. far inside, just inside and just "
+    "outside the closeness window 1e-8 + 1e-5 of numpy.isclose, with payload inner coefficients ('g') or a lightly damped low-frequency "
+    "root pair per channel ('lf'; with both end coefficients ~I the product of all roots has modulus ~1); same tolerances, same guards "
+    "(n = 1 is then always removed by the root-separation guard: all roots are -1 +- delta)",
+    "near-identity families, fit and class routes: a case is skipped when the first-order bound eps*cond(normal equations)*root "
+    "sensitivity (true coefficients, true null vectors) of some root exceeds the pole tolerance or the distance of that root from the "
+    "not-judged band around the stability boundary - with both end coefficients ~I roots lie within 1e-6 of the unit circle and the "
+    "least-squares step (accurate to eps*cond, see above) cannot be asked on which side it puts them; the true-coefficient route "
+    "judges every such case",
 ]
 
 TOL = 1e-5          # coefficients (relative to max|coefficient|) and poles (relative to |lambda|)
@@ -58,6 +69,18 @@ EXTRA = (0, 2)
 FAMS = (0, 1, 2)
 NXSEG = 1024        # only used by the 'cor' branch, which is not exercised
 
+# Coefficient families 'nearI:<distance>:<kind>': the FREE end coefficient of the constraint (alpha_n for the negative sign, alpha_0
+# for the positive sign - the other end is exactly I) lies close to the identity without being the identity: diagonal 1 +- delta
+# (signs alternating along the diagonal, so deviations of both signs are present), off-diagonal +-eps (signs from the payload).
+# Distances: far inside, inside, just inside and just outside the window |x - I| <= 1e-8 + 1e-5*I (numpy.isclose defaults).
+# Kinds: 'g' = the inner coefficients are the payload matrices of family 0; 'lf' = every channel carries a lightly damped
+# low-frequency root pair (angle 0.12..0.45 rad per sample, radius 0.97..0.995; further pairs 0.6..2.8 rad, radius 0.8..0.95; the
+# last factor's radius makes the product of the radii 1, as alpha_0 = I and alpha_n ~ I demand) plus a payload coupling of 0.02
+NEAR_DIST = {"1e-9": (1e-9, 1e-10), "1e-7": (1e-7, 1e-9), "0.9e-5": (0.9e-5, 0.9e-8), "1.1e-5": (1.1e-5, 1.1e-8)}
+NEAR_KINDS = ("g", "lf")
+NEAR_FAMS = tuple(f"nearI:{d}:{k}" for d in NEAR_DIST for k in NEAR_KINDS)
+NEAR_COUPLING = 0.02
+
 
 # ---- ground truth --------------------------------------------------------------------------------
 
@@ -68,6 +91,8 @@ def nf_of(kind, n):
 def coefficients(seed, n, Nch, Nref, sgn, fam):
     """Real alpha_0..alpha_n (Nch x Nch), beta_0..beta_n (Nref x Nch) under the library's constraint."""
     tag = f"c05/{n}/{Nch}/{Nref}/{sgn}/{fam}"
+    if isinstance(fam, str):
+        return near_identity_coefficients(seed, tag, n, Nch, Nref, sgn, fam)
     a_amp, b_amp = ((0.5, 1.0), (0.3, 1e-2), (0.5, 1e-8))[fam]      # family 2: a spectrum of very small level
     alpha = a_amp * payload.normal(seed, tag + "/a", (n + 1, Nch, Nch))
     if sgn == -1:           # 'LO': alpha_0 = I
@@ -77,6 +102,44 @@ def coefficients(seed, n, Nch, Nref, sgn, fam):
         alpha[n] = np.eye(Nch)
         alpha[0] = alpha[0] + np.eye(Nch)
     beta = b_amp * payload.normal(seed, tag + "/b", (n + 1, Nref, Nch))
+    return alpha, beta
+
+
+def near_identity_coefficients(seed, tag, n, Nch, Nref, sgn, fam):
+    """Families 'nearI:<distance>:<kind>' (see NEAR_DIST): the constrained end coefficient is exactly I, the free end coefficient
+    is I + D with |D_jj| = delta (alternating signs) and |D_jk| = eps; beta is a payload matrix of unit level."""
+    _, dist, kind = fam.split(":")
+    delta, eps = NEAR_DIST[dist]
+    if kind == "g":
+        alpha = 0.5 * payload.normal(seed, tag + "/a", (n + 1, Nch, Nch))
+    else:
+        npair = n // 2
+        alpha = NEAR_COUPLING * payload.normal(seed, tag + "/a", (n + 1, Nch, Nch))
+        th = np.empty((Nch, max(npair, 1)))
+        rad = np.empty((Nch, max(npair, 1)))
+        th[:, 0] = payload.entries(seed, tag + "/th0", (Nch,), lo=0.12, hi=0.45, signed=False)
+        rad[:, 0] = payload.entries(seed, tag + "/r0", (Nch,), lo=0.97, hi=0.995, signed=False)
+        if npair > 1:
+            th[:, 1:] = payload.entries(seed, tag + "/th", (Nch, npair - 1), lo=0.6, hi=2.8, signed=False)
+            rad[:, 1:] = payload.entries(seed, tag + "/r", (Nch, npair - 1), lo=0.8, hi=0.95, signed=False)
+        for j in range(Nch):
+            rr = rad[j, :npair].copy()
+            if n % 2 == 0 and npair:
+                rr[-1] = 1.0 / np.prod(rr[:-1])                 # product of the radii = 1 (n = 2: the pair lies on the unit circle)
+            p = np.array([1.0])
+            for k in range(npair):
+                p = np.convolve(p, [1.0, -2.0 * np.cos(th[j, k]) / rr[k], 1.0 / rr[k] ** 2])
+            if n % 2 == 1:
+                p = np.convolve(p, [1.0, float(np.prod(rr ** 2))])   # real root -1/prod(r^2), outside the unit circle for n >= 3
+            alpha[:, j, j] += p
+    s = np.where((np.arange(Nch) + n + Nch) % 2 == 0, 1.0, -1.0)
+    sg = np.where(payload.normal(seed, tag + "/o", (Nch, Nch)) >= 0, 1.0, -1.0)
+    near = np.eye(Nch) + np.diag(delta * s) + eps * sg * (1.0 - np.eye(Nch))
+    if sgn == -1:
+        alpha[0], alpha[n] = np.eye(Nch), near
+    else:
+        alpha[n], alpha[0] = np.eye(Nch), near
+    beta = payload.normal(seed, tag + "/b", (n + 1, Nref, Nch))
     return alpha, beta
 
 
@@ -152,6 +215,30 @@ def ls_cond(Sy, n, sgn):
         return float(np.linalg.cond(sub))
     except np.linalg.LinAlgError:
         return np.inf
+
+
+def fit_cannot_resolve(alpha, z, kap):
+    """Ground-truth guard of the near-identity families on the routes that FIT the coefficients (fit, class): first-order bound of
+    the error of each root caused by the coefficient error eps*cond of the least-squares step (LS_COND text above),
+        |dz_j| <= (sum_k |z_j|^k) |dA| / |y^H A'(z_j) x|,   |dA| <= Nch * 4 eps kap max|alpha|,
+    x, y = right/left null vectors of the TRUE A(z_j) (SVD), relative to |z_j ln z_j|. The case is skipped when that bound exceeds
+    the pole tolerance for some root, or exceeds the distance of a root's Re(lambda)/|lambda| from the not-judged band EDGE (the fit
+    could then move the root across the stability boundary: families with both end coefficients ~I have roots that close to the unit
+    circle). Observed error / bound <= 0.15 over the quick lattice; nothing but the true coefficients enters."""
+    n, Nch = alpha.shape[0] - 1, alpha.shape[1]
+    lam = np.log(z)
+    relre = np.abs(lam.real) / np.abs(lam)
+    margin = np.where(relre > EDGE, np.minimum(TOL, relre - EDGE), TOL)
+    dA = Nch * 4 * np.finfo(float).eps * kap * np.max(np.abs(alpha))
+    for zj, lj, mj in zip(z, lam, margin):
+        P = sum(alpha[k] * zj**k for k in range(n + 1))
+        dP = sum(k * alpha[k] * zj ** (k - 1) for k in range(1, n + 1))
+        U, _, Vh = np.linalg.svd(P)
+        den = abs(U[:, -1].conj() @ dP @ Vh[-1].conj())
+        bound = sum(abs(zj) ** k for k in range(n + 1)) * dA / max(den, 1e-300) / (abs(zj) * abs(lj))
+        if not bound <= mj:
+            return True
+    return False
 
 
 # ---- oracle ---------------------------------------------------------------------------------------
@@ -301,6 +388,10 @@ def run_case(seed, c):
             t.skipped_by_guard += 1
             t.outcomes["guard:ls-normal-equations-ill-conditioned"] += 1
             return t
+        if isinstance(c["fam"], str) and fit_cannot_resolve(alpha, z, kap):
+            t.skipped_by_guard += 1
+            t.outcomes["guard:nearI:eps*cond*root-sensitivity-above-the-tolerance-or-the-distance-to-the-stability-boundary"] += 1
+            return t
         t.evaluations += 1
         try:
             Ad, Bn = plscf.pLSCF(Sy, dt, ordmax, sgn_basf=sgn)
@@ -417,6 +508,12 @@ def run_case(seed, c):
             good = False
 
     else:  # route == "class": the algorithm class through SingleSetup, the spectral estimate replaced by the exact one
+        if isinstance(c["fam"], str):
+            kap = ls_cond(spectrum(alpha, beta, -1, nf_of(c["nfk"], n)), n, -1)
+            if not kap <= LS_COND_MAX or fit_cannot_resolve(alpha, z, kap):
+                t.skipped_by_guard += 1
+                t.outcomes["guard:nearI:eps*cond*root-sensitivity-above-the-tolerance-or-the-distance-to-the-stability-boundary"] += 1
+                return t
         good = run_class(t, case, alpha, beta, z, n, Nch, ordmax, dt, c["nfk"])
 
     if good:
@@ -431,6 +528,18 @@ def run_case(seed, c):
             t.outcomes["stable-root-on-negative-real-axis"] += 1
         if n_blank and n_keep:
             t.nontrivial.add(cid)
+        if isinstance(c["fam"], str):
+            # vacuity monitors of the near-identity region (ground truth only): which distance / route / sign was judged, and on
+            # which side of the closeness window 1e-8 + 1e-5*|I| the free end coefficient lies
+            dist = c["fam"].split(":")[1]
+            free = alpha[n] if sgn == -1 else alpha[0]
+            dev = np.abs(free - np.eye(Nch))
+            inside = bool(np.all(dev <= 1e-8 + 1e-5 * np.eye(Nch))) and bool(dev.max() > 0)
+            t.outcomes[f"nearI({dist}):{route}:sign{sgn:+d}:holds"] += 1
+            t.outcomes["nearI:free-end-coefficient-" + ("inside" if inside else "outside") + "-the-1e-5/1e-8-window-not-I:holds"] += 1
+            t.err(f"nearI:{route}:max|free end coefficient - I| (input)", float(dev.max()))
+            if n_blank and n_keep:
+                t.outcomes[f"nearI:{c['fam'].split(':')[2]}:reported-and-blanked-roots"] += 1
         if n >= 2 and Nch >= 3:
             t.sample({"case": case, "roots_reported": n_keep, "roots_blanked": n_blank, "worst": dict(t.max_err)})
     return t
@@ -608,6 +717,10 @@ def explore(ctx):
     inner_class = list(itertools.product((-1,), NF_KINDS if ctx.thorough else ("min+7",), (1.0 / 51.2, 1.0), EXTRA, FAMS))
     ns_class = ns if ctx.thorough else [1, 2, 3]
     nch_class = [2, 3, 4] if ctx.thorough else [2, 3]
+    # near-identity families (both tiers, same code path): every (n, Nch, Nref) of the tier, both signs, all distances and kinds
+    near_fit = list(itertools.product(SIGNS, ("min+7",), (1.0 / 51.2,), EXTRA, NEAR_FAMS))
+    near_true = list(itertools.product(SIGNS, ("min",), DTS, (0,), NEAR_FAMS))
+    near_class = list(itertools.product((-1,), ("min+7",), (1.0 / 51.2,), EXTRA, NEAR_FAMS))
     ctx.bounds = {
         "fit": {"n": ns, "Nch": nchs, "Nref": nrefs, "sign": list(SIGNS), "Nf": list(NF_KINDS) + ["min = 4(n+1)"],
                 "dt": list(DTS), "ordmax-n": list(EXTRA), "coefficient_family": list(FAMS), "methodSy": ["per", "cor (true-coefficient route: which roots are reported; nxseg 32, 1024)"]},
@@ -616,8 +729,18 @@ def explore(ctx):
         "class (pLSCF algorithm through SingleSetup, SD_est replaced by the exact spectrum)": {
             "n": ns_class, "Nch = Nref": nch_class, "sign": [-1], "Nf": sorted({k for _, k, _, _, _ in inner_class}),
             "dt": [1.0 / 51.2, 1.0], "ordmax-n": list(EXTRA), "coefficient_family": list(FAMS)},
+        "near-identity coefficient families (fit, true and class routes; every n, Nch, Nref of the route)": {
+            "free end coefficient (alpha_n for sign -1, alpha_0 for sign +1; the other end is exactly I)":
+                "I + D, |D_jj| = delta with alternating signs, |D_jk| = eps",
+            "(delta, eps)": {k: list(v) for k, v in NEAR_DIST.items()}, "window they straddle": "1e-8 + 1e-5*|I| (numpy.isclose defaults)",
+            "inner coefficients": {"g": "payload matrices (level 0.5)", "lf": "lightly damped low-frequency root pair per channel "
+                                   "(0.12..0.45 rad/sample, radius 0.97..0.995) + payload coupling 0.02"},
+            "fit": {"sign": list(SIGNS), "Nf": ["min+7"], "dt": [1.0 / 51.2], "ordmax-n": list(EXTRA)},
+            "true": {"sign": list(SIGNS), "dt": list(DTS)},
+            "class": {"sign": [-1], "Nf": ["min+7"], "dt": [1.0 / 51.2], "ordmax-n": list(EXTRA)}},
         "tolerance": {"coefficients_rel": TOL, "poles_rel": TOL, "self_consistency": TOL_SELF, "edge_not_judged": EDGE},
-        "guards": {"cond(alpha_0), cond(alpha_n) <=": 50, "root separation >=": 1e-3, "|root| >=": 1e-3,
+        "guards": {"near-identity families, fit/class": "4*Nch*eps*cond*max|alpha|*root sensitivity <= min(1e-5, |Re lambda|/|lambda| - 1e-7)",
+                   "cond(alpha_0), cond(alpha_n) <=": 50, "root separation >=": 1e-3, "|root| >=": 1e-3,
                    "relative pole separation >=": 1e-3},
     }
     items = []
@@ -626,8 +749,11 @@ def explore(ctx):
         for sgn, nfk in itertools.product(SIGNS, NF_KINDS):     # one work item = 12 cases (dt x ordmax x family)
             items.append(("fit", n, Nch, Nref, [i for i in inner_fit if i[0] == sgn and i[1] == nfk]))
         items.append(("true", n, Nch, Nref, inner_true))
+        items.append(("fit", n, Nch, Nref, near_fit))
+        items.append(("true", n, Nch, Nref, near_true))
     for n, Nch in itertools.product(ns_class, nch_class):
         items.append(("class", n, Nch, Nch, inner_class))
+        items.append(("class", n, Nch, Nch, near_class))
     diag_len = (2, 3, 4) if ctx.thorough else (2, 3)
     for N in diag_len:
         items.append(("diag", 0, 0, 0, list(itertools.product(itertools.product(DIAG_ALPHABET, repeat=N), (1, 2), DTS))))
@@ -637,6 +763,11 @@ def explore(ctx):
     items.sort(key=lambda it: -(it[1] * it[2] * max(it[2], it[3]) * sum(cost.get(i[1], 1) for i in it[4])))
     ctx.pmap(_slice, items, chunksize=1)
     ctx.require("true:cor:holds", "true:cor:stable-root-less-damped-than-the-window-term-reported")
+    ctx.require(*[f"nearI({d}):{r}:sign{sg:+d}:holds" for d in NEAR_DIST for r, sg in
+                  (("fit", -1), ("fit", 1), ("true", -1), ("true", 1), ("class", -1))])
+    ctx.require("nearI:free-end-coefficient-inside-the-1e-5/1e-8-window-not-I:holds",
+                "nearI:free-end-coefficient-outside-the-1e-5/1e-8-window-not-I:holds",
+                "nearI:g:reported-and-blanked-roots", "nearI:lf:reported-and-blanked-roots")
     ctx.require("fit:holds", "true:holds", "class:holds", "diag:holds", "diag:pole-exactly-on-the-boundary-reported", "ordmax>n:judged", "blanked-some", "reported-some")
 
 
